@@ -398,8 +398,15 @@ fn check_semver(ctx: &Ctx, arts: &[SArt], os: bool, arch: bool, req_i: usize) ->
         Err(e) => return Err(Fail::new("C18:rendered-inventory-does-not-parse", format!("{e}; text: {text}"))),
     };
     ensure!(back.artifacts.len() == inv.artifacts.len(), "C18:roundtrip-length", "{} vs {}", back.artifacts.len(), inv.artifacts.len());
-    for (a, b) in inv.artifacts.iter().zip(back.artifacts.iter()) {
-        ensure!(a == b, "C18:roundtrip-artifact-differs", "{a:?} vs {b:?}");
+    // "gives equal artifacts": as a multiset — a renderer may list them in any (e.g. sorted) order
+    let mut rest: Vec<_> = back.artifacts.iter().collect();
+    for a in inv.artifacts.iter() {
+        match rest.iter().position(|b| *b == a) {
+            Some(i) => {
+                rest.swap_remove(i);
+            }
+            None => return Err(Fail::new("C18:roundtrip-artifact-differs", format!("{a:?} is not among the artifacts read back"))),
+        }
     }
     if !arts.is_empty() {
         ctx.class("roundtrip:non-empty");
@@ -437,7 +444,10 @@ fn checksum_should_accept(s: &str, name: &str, size: usize) -> bool {
 fn check_checksum<D: Digest>(s: &str, name: &str, size: usize) -> Check {
     let got = s.parse::<Checksum<D>>();
     let want = checksum_should_accept(s, name, size);
-    if got.is_ok() != want {
+    // upper-case hex digits: whether "<hex>" admits them is not decided (a lower-case-only decoder is fine); such a
+    // string may be accepted or rejected, but if accepted it must still decode to the right bytes
+    let upper_only_issue = want && s[s.find(':').map(|i| i + 1).unwrap_or(0)..].chars().any(|c| c.is_ascii_uppercase());
+    if got.is_ok() != want && !(upper_only_issue && got.is_err()) {
         let sig = if want { "C18:checksum-rejects-valid" } else { "C18:checksum-accepts-invalid" };
         return Err(Fail::new(sig, format!("{s:?} for {name}/{size}: accepted={} expected={want}", got.is_ok())));
     }
@@ -455,6 +465,7 @@ fn check_checksum<D: Digest>(s: &str, name: &str, size: usize) -> Check {
         let de: Result<Checksum<D>, _> = serde_json::from_value(json!(s));
         ensure!(de.is_err(), "C18:checksum-deserialize-accepts-invalid", "{s:?}");
     }
+    let _ = upper_only_issue;
     Ok(())
 }
 
